@@ -235,9 +235,11 @@ def rule_rebase(ctx):
     src = full(f.node)
     ctx.ob('C12.rebase', f'{f.fq}:nonzero', 'if value == 0.0: raise ValueError' in src and 'if value < 0.0: raise ValueError' in src,
            'tempo 0 or negative is refused by the setter', f.node, mod)
+    from .. import beliefs
+    beliefs.rule_ordefault(ctx, 'C12.rebase', ['sc3.base.clock'])
     i = ci.methods['__init__']
     src = full(i.node)
-    ok = 'self._base_seconds = seconds or _libsc3.main.current_tt._seconds' in src and 'self._base_beats = beats or 0.0' in src
+    ok = 'self._base_seconds = _libsc3.main.current_tt._seconds if seconds is None else seconds' in src and 'self._base_beats = beats or 0.0' in src
     ctx.ob('C12.rebase', f'{i.fq}:base', ok, 'a new clock starts its map at the current logical time', i.node, mod)
 
 
@@ -297,6 +299,10 @@ def run(ctx):
 
 
 MUTANTS = [
+    dict(rule='C12.rebase', name='(fix reverted) explicit seconds=0.0 replaced by the current time', file='sc3/base/clock.py',
+         old="        self._base_seconds = _libsc3.main.current_tt._seconds\\\n            if seconds is None else seconds", new="        self._base_seconds = seconds or _libsc3.main.current_tt._seconds"),
+    dict(rule='C12.rebase', name='explicit reference beat 0 replaced by the current beat (seed C12-c)', file='sc3/base/clock.py',
+         old="        if refbeat is None:\n            refbeat = self.beats", new="        refbeat = refbeat or self.beats"),
     dict(rule='C12.rebase', name='tempo setter re-bases at elapsed time (seed C10-b)', file='sc3/base/clock.py',
          old="        beats = self.beats\n        self._base_seconds = self.beats2secs(beats)\n        self._base_beats = beats\n        self._tempo = value\n        self._beat_dur = 1.0 / self._tempo\n        # en tempo_\n        mdl.NotificationCenter.notify(self, 'tempo')\n        if self.mode == _libsc3.main.NRT_MODE:\n            _libsc3.main._clock_scheduler.rekey(self)\n        else:\n            with self._sched_cond:\n                self._sched_cond.notify()  # NOTE: is notify_one in C++.\n",
          new="        self.etempo(value)\n"),
